@@ -19,6 +19,7 @@ ops of the binary byte→token layer (C08, and the binary clauses of C09 / C19 /
   bcalls <cap> <sched> <hex> <n>     n successive next() calls, continuing after errors
   breadbytes <cap> <sched> <hex> <n,n,..>   read_bytes calls
   bskip <cap> <sched> <hex> <k>      reader: tokens up to and including the k-th Open, skip_container, next token
+  bskipretry <cap> <sched> <hex> <k>  like bskip, but skip_container is called again after each I/O error
   blexskip <hex> <k>                 lexer: the same with skip_value(OPEN)
   blexskipv <hex> <k>                lexer: k tokens, read_id, skip_value(id), next token
   bufops <cap> <sched> <hex> <ops>   BufferWindow directly: ops `f` (fill_buf) / `a<n>` (advance n)
@@ -250,6 +251,16 @@ def nextK : Nat → Reader → List Token × String × Reader
     | (.ok none, rd') => ([], "end", rd')
     | (.error e, rd') => ([], showKind e.kind, rd')
 
+/-- `skip_container`, called again after every I/O error (at most 6 retries) -/
+def skipRetry : Nat → Nat → Reader → String
+  | 0, _, _ => "model-out-of-fuel"
+  | fuel + 1, retries, rd =>
+    match rd.skipContainer with
+    | (.ok (), rd') => s!"retries:{retries} ok {rd'.position} {showReadNext rd'}"
+    | (.error e, rd') =>
+      if e.kind = .read ∧ retries < 6 then skipRetry fuel (retries + 1) rd'
+      else s!"retries:{retries} {showKind e.kind} {e.position} {rd'.position}"
+
 def handle : Handler
   | ["blex", h] => (parseHex h).map fun d =>
       let (ts, term, p) := Lexer.run d
@@ -332,6 +343,14 @@ def handle : Handler
         match rd.skipContainer with
         | (.ok (), rd') => pure s!"ok {rd'.position} {showReadNext rd'}"
         | (.error e, rd') => pure s!"{showKind e.kind} {e.position} {rd'.position}"
+  | ["bskipretry", capw, sw, h, kw] => do
+      let d ← parseHex h
+      let sched ← parseSched sw
+      let rd ← mkReader capw sched d
+      let k ← kw.toNat?
+      match readToOpen (Reader.streamFuel rd) rd k with
+      | .error msg => pure msg
+      | .ok rd => pure (skipRetry 7 0 rd)
   | ["blexskip", h, kw] => do
       let d ← parseHex h
       let k ← kw.toNat?
